@@ -4,7 +4,7 @@
    the general facts about the loop ("growing the recursion seed until it stops advancing").                 *)
 From Coq Require Import List NArith.
 From TatsuV Require Import Base.PyStr Engine.Value Engine.Syntax Engine.Input Engine.Engine Engine.Calls
-     Engine.LrecProof Engine.MemoProof Engine.FaithfulBounds.
+     Engine.LrecProof Engine.MemoProof Engine.FaithfulBounds Engine.PrefixProof.
 Import ListNotations.
 
 (* the loop returns the last seed of a strictly advancing chain of seeds *)
@@ -86,3 +86,55 @@ Example C03_left_fold_witness :
   exists f, fst l_run = Ok (VList true [VList true [l_a; l_plus; l_a]; l_plus; l_a]) f /\ pos f = 5.
 Proof. exact lrec_witness. Qed.
 Print Assumptions C03_left_fold_witness.
+
+(* ASSOCIATION TO THE LEFT, for any number of rounds and whatever follows the recursive call.
+   (1) What a frame has collected is never taken back: its elements stay, in order, a prefix of what it holds later - through
+       every construct, the memo cache, the seeds and the seed-growing loop. *)
+Theorem C03_collected_elements_are_kept :
+  forall text re_at isalnum isalpha lower upper ic unsafe rules ec act lineat n e f st r f' st',
+  feval text re_at isalnum isalpha lower upper ic unsafe rules ec act lineat n e f st = (Ok r f', st') ->
+  exists rest, items (cst f') = items (cst f) ++ rest.
+Proof. exact feval_prefix. Qed.
+Print Assumptions C03_collected_elements_are_kept.
+
+(* (2) While the seed for (p, r) is [seed], the alternative `r X...` of the left-recursive rule r collects [seed] as its FIRST
+       element: the recursive call is answered from the seed (no body runs, the state is untouched) and everything after it only
+       appends.  So the tree of round i is the left operand of the tree of round i+1. *)
+Theorem C03_recursive_alternative_starts_with_the_seed :
+  forall text re_at isalnum isalpha lower upper ic unsafe rules ec act lineat n r rl xs f st seed q p v f' st',
+  get_rule rules r = Some rl -> r_lrec rl = true -> left_recursion ec = true ->
+  (if r_tokn rl then Some (pos f) else next_token text re_at ic (pos f)) = Some p ->
+  lookup (results st) (p, r) = Some (OOk seed q) ->
+  seed <> VNone -> islist seed = false -> cst f = VNone ->
+  feval text re_at isalnum isalpha lower upper ic unsafe rules ec act lineat (S (S n)) (Seq (Call r :: xs)) f st = (Ok v f', st') ->
+  exists rest, items (cst f') = seed :: rest.
+Proof. exact recursive_alternative_starts_with_the_seed. Qed.
+Print Assumptions C03_recursive_alternative_starts_with_the_seed.
+
+Theorem C03_new_tree_has_previous_tree_on_the_left :
+  forall text re_at isalnum isalpha lower upper ic unsafe rules ec act lineat n r rl xs f st seed q p v f' st',
+  get_rule rules r = Some rl -> r_lrec rl = true -> left_recursion ec = true ->
+  (if r_tokn rl then Some (pos f) else next_token text re_at ic (pos f)) = Some p ->
+  lookup (results st) (p, r) = Some (OOk seed q) ->
+  seed <> VNone -> islist seed = false -> cst f = VNone ->
+  feval text re_at isalnum isalpha lower upper ic unsafe rules ec act lineat (S (S n)) (Seq (Call r :: xs)) f st = (Ok v f', st') ->
+  fast f' = [] ->
+  fold f' = seed \/ exists rest, fold f' = VList true (seed :: rest).
+Proof. exact new_tree_has_previous_tree_on_the_left. Qed.
+Print Assumptions C03_new_tree_has_previous_tree_on_the_left.
+
+(* (3) the whole body `r X... | alternatives` in the frame a rule invocation starts with: either the recursive alternative
+       succeeded and the body's frame starts with the seed, or that alternative failed (and a non-recursive one answered) *)
+Theorem C03_body_round :
+  forall text re_at isalnum isalpha lower upper ic unsafe rules ec act lineat n r rl xs alts f0 st seed q p v fb st',
+  get_rule rules r = Some rl -> r_lrec rl = true -> left_recursion ec = true ->
+  (if r_tokn rl then Some (pos f0) else next_token text re_at ic (pos f0)) = Some p ->
+  lookup (results st) (p, r) = Some (OOk seed q) ->
+  seed <> VNone -> islist seed = false -> cst f0 = VNone ->
+  feval text re_at isalnum isalpha lower upper ic unsafe rules ec act lineat (S (S (S n)))
+        (Choice (Seq (Call r :: xs) :: alts)) f0 st = (Ok v fb, st') ->
+  (exists rest, items (cst fb) = seed :: rest) \/
+  (exists st1, feval text re_at isalnum isalpha lower upper ic unsafe rules ec act lineat (S (S n)) (Seq (Call r :: xs))
+                 (add_defined unsafe (Seq (Call r :: xs)) (push f0)) st = (Fail false, st1)).
+Proof. exact body_round. Qed.
+Print Assumptions C03_body_round.
